@@ -256,8 +256,20 @@ class IntroducerClient(service.Service, Referenceable):
                          parent=lp, level=log.WEIRD, umid="ZAU15Q")
                 # process other announcements that arrived with the bad one
                 continue
+            except Exception:
+                # undecodable key or signature, unparseable message: same treatment
+                self.log("malformed inbound announcement: %r" % (ann_t,),
+                         parent=lp, level=log.WEIRD, umid="ZAU15R")
+                continue
 
-            self._process_announcement(ann, key_s)
+            try:
+                self._process_announcement(ann, key_s)
+            except Exception:
+                # e.g. a seqnum that cannot be compared with the stored one:
+                # ignore this announcement, keep processing the others
+                log.err(format="error processing inbound announcement %(ann)s",
+                        ann=ann, facility="tahoe.introducer.client",
+                        level=log.WEIRD, umid="ZAU15S")
 
     def _process_announcement(self, ann, key_s):
         precondition(isinstance(key_s, bytes), key_s)
